@@ -150,8 +150,11 @@ CLAIMED["C15"] = {
     "NestedSampler.initialise establishes the sampler invariant for a "
     "fresh run; the INS data-path callees keep the level-selection domain "
     "INS_LIVE_OK (depends on how many draws land above the threshold); "
-    "compute_stopping_criterion returns one value per configured criterion "
-    "(attribute wiring); history recording (update_history) and the "
+    "inside the loop compute_stopping_criterion is used through 'one value "
+    "per configured criterion' (its real body is under contract "
+    "separately: the evidence-change criterion is the ABSOLUTE change, the "
+    "list follows the configured order); history recording "
+    "(update_history) and the "
     "numerical values of ESS / evidence-error criteria on real runs are "
     "not decided here (ESS formula: C16). Termination is not proved.",
 }
@@ -409,6 +412,9 @@ CLAIMED["C08"] = {
     "clip=True (known finding, witnessed on the real code: the density "
     "attached at generation is that of the un-clipped point); the "
     "constructor stores clip as given and leaves it off by default. "
+    "FlowModel.train leaves no stale eval-mode cache of the LU layers "
+    "behind (ghost: caches are filled by validation passes, emptied by "
+    "train(), not by load_state_dict). "
     "Failed obligations are replayed on a concrete affine "
     "instance built from the package's own NFlow / FlowModel / FlowProposal "
     "classes (replay/c08_flow.py).",
